@@ -406,7 +406,7 @@ def m_zeros(interp, n, dtype=float):
     if interp.truth(n < 0):
         from .interp import ProgExc
         raise ProgExc(ValueError, "negative dimensions")
-    if dt == np.dtype('uint8'):
+    if dt == np.dtype('uint8') and interp.call_stack and interp.call_stack[-1].endswith("fromfile"):
         return ByteBuf(n).view()
     return AbsArr(n, dt, ("zeros",))
 
@@ -420,12 +420,14 @@ def m_empty(interp, shape, dtype=float):
 
 
 class AbsArr(object):
-    """Array known by length, dtype and an abstract tag."""
+    """Array known by length, dtype and an abstract tag; slice stores are logged in `writes`
+    as (lo, hi, source, field)."""
 
     def __init__(self, length, dtype, tag):
         self.length = length
         self.dtype_ = np.dtype(dtype) if dtype is not None else None
         self.tag = tag
+        self.writes = []
 
     def sym_len(self):
         return self.length
@@ -433,6 +435,94 @@ class AbsArr(object):
     @property
     def dtype(self):
         return self.dtype_
+
+    def view(self, dt):
+        dt = np.dtype(dt)
+        if self.dtype_ == np.dtype('uint8'):
+            b = AbsArr(_exact_div(self.length, dt.itemsize), dt, self.tag)
+            b.writes = self.writes
+            return b
+        raise Unsupported("view of abstract array")
+
+
+class FieldView(object):
+    """arr['field'] of a structured abstract array"""
+
+    def __init__(self, arr, field):
+        self.arr = arr
+        self.field = field
+
+    def sym_len(self):
+        return self.arr.sym_len()
+
+
+class TsArr(object):
+    """TimestampArray over an array of 16-byte (seconds, second_fractions) records"""
+
+    def __init__(self, arr, names):
+        self.arr = arr
+        self.names = names
+
+    def sym_len(self):
+        return self.arr.sym_len()
+
+    def as_datetime64(self, resolution="us"):
+        return Converted(self, resolution)
+
+
+class Converted(object):
+    """TimestampArray.as_datetime64(resolution) of a timestamp array (elementwise conversion, C12)"""
+
+    def __init__(self, src, resolution):
+        self.src = src
+        self.resolution = resolution
+
+    def sym_len(self):
+        return self.src.sym_len()
+
+
+def _tsarr_getitem(interp, t, k):
+    if isinstance(k, str):
+        if k not in t.names:
+            from .interp import ProgExc
+            raise ProgExc(ValueError, "no field")
+        return FieldView(t, k)
+    raise Unsupported("timestamp array index %r" % (k,))
+
+
+def _store_slice(interp, target, k, src, field=None):
+    from .interp import ProgExc, SymSlice
+    arr = target
+    if not isinstance(k, (slice, SymSlice)) or k.step not in (None, 1):
+        raise Unsupported("array store at %r" % (k,))
+    n = arr.sym_len()
+    lo, hi = _norm_slice(interp, k.start, k.stop, n)
+    ln = interp.models[len](interp, src) if not isinstance(src, (int, float)) else None
+    M.trusted("numpy: a[lo:hi] = b copies b elementwise into positions lo..hi-1 (clamped to len(a)) and raises "
+              "ValueError unless len(b) == hi-lo (or b broadcasts)")
+    if ln is not None and not interp.truth(ln == hi - lo):
+        raise ProgExc(ValueError, "could not broadcast")
+    base = arr.arr if isinstance(arr, TsArr) else arr
+    base.writes.append((lo, hi, src, field))
+
+
+def _absarr_setitem(interp, a, k, v):
+    _store_slice(interp, a, k, v)
+
+
+def _fieldview_setitem(interp, fv, k, v):
+    _store_slice(interp, fv.arr, k, v, field=fv.field)
+
+
+def _instantiate_ndarray_subclass(interp, cls, args, kwargs):
+    if cls.name == "TimestampArray":
+        a = args[0]
+        names = a.dtype_.names
+        if names not in (("second_fractions", "seconds"), ("seconds", "second_fractions")):
+            from .interp import ProgExc
+            raise ProgExc(ValueError, "fields")
+        return TsArr(a, names)
+    raise Unsupported("ndarray subclass %s" % cls.name)
 
 
 def _bufview_getitem(interp, v, k):
@@ -453,6 +543,11 @@ def install(interp, m):
     interp.external["numpy"] = M.NpProxy(np, table)
     m[("getitem", FileArr)] = _filearr_getitem
     m[("getitem", ListArr)] = _listarr_getitem
+    m[("getitem", TsArr)] = _tsarr_getitem
+    m[("setitem", AbsArr)] = _absarr_setitem
+    m[("setitem", FieldView)] = _fieldview_setitem
+    m[("instantiate", np.ndarray)] = _instantiate_ndarray_subclass
+    m[("isinstance_cls", "nptdms.timestamp:TimestampArray")] = lambda interp, v: isinstance(v, TsArr)
     m[("setitem", ListArr)] = _listarr_setitem
     m[("getitem", BufView)] = _bufview_getitem
     m[("setattr", FileArr, "dtype")] = _filearr_set_dtype
